@@ -13,6 +13,7 @@ import (
 	"reflect"
 	"strings"
 	"sync"
+	"time"
 	"unsafe"
 
 	"github.com/tochemey/olric"
@@ -24,15 +25,24 @@ import (
 var errInjected = fmt.Errorf("verif: injected registry failure")
 
 func isNX(options []olric.PutOption) bool {
+	nx, _ := putOptions(options)
+	return nx
+}
+
+// putOptions evaluates olric's functional put options: NX and the EX time to live (0 = none).
+func putOptions(options []olric.PutOption) (nx bool, ex time.Duration) {
 	for _, o := range options {
 		v := reflect.ValueOf(o)
 		cfg := reflect.New(v.Type().In(0).Elem())
 		v.Call([]reflect.Value{cfg})
 		if cfg.Elem().FieldByName("HasNX").Bool() {
-			return true
+			nx = true
+		}
+		if cfg.Elem().FieldByName("HasEX").Bool() {
+			ex = time.Duration(cfg.Elem().FieldByName("EX").Int())
 		}
 	}
-	return false
+	return nx, ex
 }
 
 type entry struct {
@@ -76,11 +86,24 @@ func splitKey(key string) (ns, id string) {
 // kvDMap is a plain linearizable map shared by the nodes of one world; hooks let a harness
 // observe / script single operations.
 type kvStore struct {
-	mu sync.Mutex
-	m  map[string][]byte
+	mu  sync.Mutex
+	m   map[string][]byte
+	exp map[string]time.Time // expiry of keys written with EX (honoured only when ttl is set)
+	ttl bool
 }
 
-func newKVStore() *kvStore { return &kvStore{m: map[string][]byte{}} }
+func newKVStore() *kvStore { return &kvStore{m: map[string][]byte{}, exp: map[string]time.Time{}} }
+
+// expire drops key when its time to live has passed (called with mu held).
+func (s *kvStore) expire(key string) {
+	if !s.ttl {
+		return
+	}
+	if t, ok := s.exp[key]; ok && !time.Now().Before(t) {
+		delete(s.m, key)
+		delete(s.exp, key)
+	}
+}
 
 type kvDMap struct {
 	olric.DMap // unimplemented methods panic (nil embedded interface)
@@ -99,7 +122,7 @@ func (d *kvDMap) Put(_ context.Context, key string, value any, options ...olric.
 	if !ok {
 		return fmt.Errorf("verif dmap: unsupported value type %T", value)
 	}
-	nx := isNX(options)
+	nx, ex := putOptions(options)
 	if d.failPut != nil {
 		if err := d.failPut(d.node, key, nx); err != nil {
 			return err
@@ -107,6 +130,7 @@ func (d *kvDMap) Put(_ context.Context, key string, value any, options ...olric.
 	}
 	d.st.mu.Lock()
 	defer d.st.mu.Unlock()
+	d.st.expire(key)
 	if nx {
 		if _, found := d.st.m[key]; found {
 			if d.onPut != nil {
@@ -116,6 +140,10 @@ func (d *kvDMap) Put(_ context.Context, key string, value any, options ...olric.
 		}
 	}
 	d.st.m[key] = append([]byte(nil), val...)
+	delete(d.st.exp, key)
+	if ex > 0 {
+		d.st.exp[key] = time.Now().Add(ex)
+	}
 	if d.onPut != nil {
 		d.onPut(d.node, key, nx, 1)
 	}
@@ -133,6 +161,7 @@ func (d *kvDMap) Get(_ context.Context, key string) (*olric.GetResponse, error) 
 	}
 	d.st.mu.Lock()
 	defer d.st.mu.Unlock()
+	d.st.expire(key)
 	val, found := d.st.m[key]
 	if !found {
 		return nil, olric.ErrKeyNotFound
